@@ -114,6 +114,27 @@ theorem C18_write_unbound_panics (p : Bytes) (dst : Addr) : writeTo none p dst =
 theorem C18_write_no_panic (p : Bytes) (dst src : Addr) : writeTo (some src) p dst ≠ .panic := by
   simp [writeTo, udp4pkt_eq]
 
+/-- **C18 (writes are independent).** For any list of datagrams written
+through one bound connection no write panics, there is exactly one frame per
+datagram, and the frame of datagram `i` is `udp4pkt` of datagram `i` alone — a
+pure function of (payload, destination, bound address): frames of distinct
+writes share nothing, so every clause above (layout, checksums, payload
+verbatim) holds for each frame whatever the other writers do.  This is a
+statement about the model; that the Go code keeps no mutable state shared by
+concurrent `WriteTo` calls is checked by the harness (parked-writer scenarios,
+race detector) and by the facts `fact_writeTo_stateless`, not proved. -/
+theorem C18_write_independent (src : Addr) (ds : List (Bytes × Addr)) :
+    ∃ fs, writeAll (some src) ds = .ok fs ∧
+      ds.map (fun d => udp4pkt d.1 d.2 src) = fs.map Res.ok := by
+  induction ds with
+  | nil => exact ⟨[], rfl, rfl⟩
+  | cons d rest ih =>
+    obtain ⟨fs, h, hall⟩ := ih
+    obtain ⟨p, a⟩ := d
+    refine ⟨frameOf p a src :: fs, ?_, ?_⟩
+    · simp [writeAll, writeTo, udp4pkt_eq, h, bind, Res.bind, pure]
+    · rw [List.map_cons, List.map_cons, hall, udp4pkt_eq]
+
 /-! ## reading -/
 
 /-- what `ReadFrom` owes the caller for a frame: its UDP data cut to the
